@@ -14,7 +14,7 @@ def run(ctx: Ctx) -> list[Ob]:
     # folding keeps requires_grad per symbolic tensor: it is part of the fold-group key
     obs += [o for o in r3.r3d(ctx) if "tensor-key" in o.instance]
     obs += r11.r11e(ctx)
-    obs += [o for o in r11.r11c(ctx) if ":finite" in o.instance]
+    obs += [o for o in r11.r11c(ctx) if ":finite" in o.instance or "add-back" in o.instance]
     obs += r11.r11g(ctx)
     obs += r11.r11h(ctx)
     obs += r11.r11j(ctx)
@@ -33,6 +33,7 @@ SPEC = PropSpec(
         "reduce and in the morphism from the linear semiring (the plain complex log has a nan gradient at an exactly-zero unit: "
         "'gradients are finite wherever the function value is non-zero'); R11c -- the log-space reduce makes its shift finite."
         " R11j: no evaluation method of a torch-side module or semiring (forward, evaluate, apply_reduce, einsum, ..; not reset_parameters, not sample) switches gradient tracking off (no_grad / set_grad_enabled / inference_mode) or detaches anything but the shift of a stable reduce. R11g: a hand-written backward (ComplexSafeLog) repairs non-finite values only -- no ordering comparison (abs(x) < eps) masks the gradient on an open set. R11h: compile_tensor_parameter passes requires_grad = p.learnable, not restricted through dtype.is_floating_point alone (False for complex dtypes: learnable complex parameters would be compiled frozen)."
+        ' R11c add-back: the stable reduce of the log-space semirings adds back what it subtracted -- the sum of the shifts over *all* inputs (func is multilinear in them): a single shared shift added once gives wrong values and, through them, wrong gradients for every product of log-space operands.'
     ),
     not_decided=(
         "that gradients equal the true derivatives (numerical: finite differences, autograd semantics); gradients with respect to "
